@@ -1,7 +1,7 @@
 (* C17 — reported line and column numbers point at the right character. *)
 From Coq Require Import ZArith NArith List Bool Arith.
 From CL Require Import Base.Sx Base.Res Model.LineCol Proofs.LineColProofs.
-From CL Require Proofs.CheckBounds Proofs.DtdBounds Model.LineColDtd Model.CheckProps Model.CheckAndroid Model.CheckFluent Model.Ftl Model.Robust Model.Unescape.
+From CL Require Proofs.CheckBounds Proofs.DtdBounds Proofs.DtdErrPos Model.CheckDTD Model.CSS Model.LineColDtd Model.CheckProps Model.CheckAndroid Model.CheckFluent Model.Ftl Model.Robust Model.Unescape.
 Import ListNotations.
 
 (* For every text and every offset up to its length (inclusive): the search
@@ -161,6 +161,38 @@ Theorem C17_bounds_dtd_line0_refuted :
     linecol s a0 = Some l0 /\ LineColDtd.dtd_value_position s a 0 0 = Some p /\
     ~ CheckBounds.lex_le l0 p.
 Proof. exact DtdBounds.dtd_line0_refuted. Qed.
+
+(* The step from the XML parser's position to the pair (checks/dtd.py: lnr = line - 1,
+   the column correction for the first value line, clamping to the last line that
+   str.splitlines keeps).  When the DOCTYPE subset has no newline the value starts at
+   document line 2, column len("<elem>"); an error at offset k of the value — or at the
+   closing tag, k = |v| — is reported at (doc_line k v, doc_col k v).  For values whose
+   only line breaks are "\n" ([plain]; "\r", VT, FF, FS, GS, RS, NEL, LS, PS make
+   str.splitlines and the parser's line count differ) the resulting pair satisfies the
+   contract [within], also through the clamp, so the reported position lies between the
+   entity start and the end of the file.  The empty value gives the line-0 pair refuted
+   above. *)
+Theorem C17_dtd_error_position_within : forall v k,
+  DtdErrPos.plain v = true -> k <= length v -> v <> [] ->
+  exists lp cp,
+    CheckDTD.error_position v (Z.of_nat (DtdErrPos.doc_line k v)) (Z.of_nat (DtdErrPos.doc_col k v))
+      = CSS.PTuple (Z.of_nat lp) (Z.of_nat cp) /\ DtdBounds.within v lp cp.
+Proof. exact DtdErrPos.error_position_within. Qed.
+
+Theorem C17_bounds_dtd_value_errors : forall pre v post a0 k,
+  DtdErrPos.plain v = true -> v <> [] -> k <= length v -> a0 <= length pre ->
+  exists lp cp l0 p le,
+    CheckDTD.error_position v (Z.of_nat (DtdErrPos.doc_line k v)) (Z.of_nat (DtdErrPos.doc_col k v))
+      = CSS.PTuple (Z.of_nat lp) (Z.of_nat cp) /\
+    linecol (pre ++ v ++ post) a0 = Some l0 /\
+    LineColDtd.dtd_value_position (pre ++ v ++ post) (length pre) lp cp = Some p /\
+    linecol (pre ++ v ++ post) (length (pre ++ v ++ post)) = Some le /\
+    CheckBounds.lex_le l0 p /\ CheckBounds.lex_le p le.
+Proof. exact DtdErrPos.dtd_error_resolved_between. Qed.
+
+Theorem C17_dtd_error_position_empty : forall line col, (2 <= line)%Z ->
+  CheckDTD.error_position [] line col = CSS.PTuple 0 0.
+Proof. exact DtdErrPos.error_position_empty. Qed.
 
 Example C17_example :
   linecol [97; 10; 98; 99; 10; 100]%N 3 = Some (2, 2) /\
